@@ -10,6 +10,7 @@ import (
 
 	"github.com/tjfoc/gmsm/gmtls"
 	"github.com/tjfoc/gmsm/verifsim/pki"
+	"github.com/tjfoc/gmsm/verifsim/ref/reftls"
 	"github.com/tjfoc/gmsm/verifsim/simkit"
 )
 
@@ -19,7 +20,7 @@ import (
 
 var benignFaults = []string{"resegment", "dribble", "random-cuts", "latency", "jitter", "short-read", "finite-window", "starved-node", "deadline-retry", "preempt"}
 var benignReach = []string{"A1-proto-mismatch", "A2-version", "A3-no-suite", "A4-ecdhe-gm", "A5-missing-certs", "A6-server-verify", "A7-client-auth", "A8-callback-error", "A9-complete",
-	"gm-cbc", "gm-gcm", "tls10", "tls11", "tls12", "client-cert-sent", "callbacks-cert", "getconfigforclient", "payload>=16k", "payload-0", "stdlib-client", "stdlib-server", "wire-decoded", "vhost-second-name", "timeout-retried", "auto-gm", "auto-tls"}
+	"gm-cbc", "gm-gcm", "tls10", "tls11", "tls12", "client-cert-sent", "callbacks-cert", "getconfigforclient", "payload>=16k", "payload-0", "stdlib-client", "stdlib-server", "wire-decoded", "vhost-second-name", "timeout-retried", "auto-gm", "auto-tls", "wire-decoded-tls12"}
 
 func init() {
 	register(Family{Name: "tls-benign", Prop: "C06", ID: 601, Weight: 1, FaultNames: benignFaults, ReachNames: benignReach, Run: runTLSBenign})
@@ -961,6 +962,20 @@ func runTLSBenign(c *simkit.Choice, r *simkit.Rec) {
 			return
 		}
 		r.Reach(idx(benignReach, "wire-decoded"))
+	}
+	if !p.CGM && reftls.Decodable(cv.vers, cv.suite, false) {
+		keyName := "tlsrsa"
+		if p.VHost {
+			keyName = "tlsrsa2"
+		}
+		if p.SrvKey == 1 {
+			keyName = "" // ECDSA certificate: ECDHE only, master secret from the key log
+		}
+		if msg := wireCheckTLS12(a.WrPipe().Captured(), b.WrPipe().Captured(), &cr, &sr, planC.Payload, planS.Payload, keyName, cv.suite); msg != "" {
+			r.Violate("wire", site, msg+" ["+p.String()+"]")
+			return
+		}
+		r.Reach(idx(benignReach, "wire-decoded-tls12"))
 	}
 	r.Sig(uint64(cv.suite)<<16 | uint64(cv.vers))
 	r.Outcome = "complete"
